@@ -12,7 +12,8 @@ from vlib.apigen import MIXIN_METHODS, MIXIN_RULES
 ID = "C17"
 LEVEL = "exploration"
 RULE = ("cases = every subset of {Operations, IAMPolicy, Locations} listed under apis x rule sets {all, some, none} (rule paths carry a "
-        "per-case prefix) x transports, plus APIs that define one or more IAM RPCs themselves and the add-iam-methods option; the "
+        "per-case prefix) x transports, plus APIs that define one or more IAM RPCs themselves and the add-iam-methods option (alone, next to other mixins and together with "
+        "an IAMPolicy entry in the YAML); the "
         "set of mixin methods on the sync and asyncio clients is compared with {methods of listed APIs that have a rule}; every "
         "exposed mixin is called over sync gRPC, asyncio gRPC and REST and the recorded path, request, routing header, verb, URL "
         "and body are judged against the standard descriptors and the YAML rule; distinct = distinct (mixin subset, rule mode, "
@@ -26,7 +27,7 @@ PARALLEL = 12
 def floors(tier):
     k = 1 if tier == "quick" else 4
     return {"surface_checks": 600 * k, "mixin_calls": 500 * k, "transport:rest": 70 * k, "transport:aio": 150 * k, "absent_confirmed": 250 * k,
-            "override_cases": 4 * k, "add_iam_cases": 2 * k}
+            "override_cases": 4 * k, "add_iam_cases": 5 * k, "add_iam_with_iam_in_yaml": 2 * k}
 
 
 def plan(seed, tier):
@@ -45,8 +46,10 @@ def plan(seed, tier):
             for sub in (["iam"], ["iam", "operations"], ["locations", "iam", "operations"]):
                 cases.append({"id": f"mix-{seed}-{i}", "seed": seed * 100003 + i, "mixins": sub, "mode": "all", "own_iam": own, "add_iam": False})
                 i += 1
-        for sub in ([], ["locations"], ["operations"]):
-            cases.append({"id": f"mix-{seed}-{i}", "seed": seed * 100003 + i, "mixins": sub, "mode": "all", "own_iam": None, "add_iam": True})
+        # the legacy option alone, next to other mixins, and together with an IAMPolicy entry in the YAML
+        for sub, mode in (([], "all"), (["locations"], "all"), (["operations"], "all"), (["iam"], "all"), (["iam"], "some"),
+                          (["iam", "operations"], "all"), (["locations", "iam", "operations"], "some")):
+            cases.append({"id": f"mix-{seed}-{i}", "seed": seed * 100003 + i, "mixins": sub, "mode": mode, "own_iam": None, "add_iam": True})
             i += 1
     return cases
 
@@ -148,6 +151,8 @@ def run_case(case):
         bump("override_cases")
     if case["add_iam"]:
         bump("add_iam_cases")
+        if "iam" in case["mixins"]:
+            bump("add_iam_with_iam_in_yaml")
     tagbase = f"{'+'.join(case['mixins']) or 'none'}|{case['mode']}|own={bool(case['own_iam'])}|addiam={case['add_iam']}"
     base_mech = {"mixins": case["mixins"], "mode": case["mode"], "own_iam": bool(case["own_iam"]), "add_iam": case["add_iam"]}
     # surface
@@ -234,7 +239,7 @@ def run_case(case):
             sample = {"method": c["method"], "rule": c["rule"], "http": {"verb": e["verb"], "path": e["path"], "body": rdm.unb64(e["body"]).decode()[:100]}}
     if not calls:
         sigs.add(tagbase + "|no-mixins-exposed")
-    return {"verdict": "violated" if viol else "held", "violations": viol[:20], "evaluations": counters.get("mixin_calls", 0) + counters.get("surface_checks", 0),
+    return {"verdict": "violated" if viol else "held", "violations": pipeline.diverse(viol, 40), "evaluations": counters.get("mixin_calls", 0) + counters.get("surface_checks", 0),
             "nontrivial_sigs": sorted(sigs), "counters": counters,
             "sample": sample or {"mixins": case["mixins"], "mode": case["mode"], "surface_sync": ev["surface"]["sync"]}}
 
